@@ -22,7 +22,11 @@ KERNELS = {
     1: ("lfric", "1_single_invoke.f90", 0),                 # testkern_mod / testkern_code
     2: ("gocean", "single_invoke.f90", 0),                  # compute_cu_mod / compute_cu_code
     3: ("lfric", "1.1.0_single_invoke_xyoz_qr.f90", 0),     # testkern_qr_mod / testkern_qr_code
+    # the algorithm layer says `use TESTKERN_W3_MOD` (Fortran is case-insensitive): kern.module_name keeps
+    # that spelling; the output file is TESTKERN_W3_<idx>_mod.f90
+    4: ("lfric-upper", "1_single_invoke_w3.f90", 0),
 }
+NAMES = {1: "testkern", 2: "compute_cu", 3: "testkern_qr", 4: "TESTKERN_W3"}
 JUNK_BODY = 0            # model body id of a pre-existing file that is not a PSyclone kernel
 JUNK_TEXT = "some code\n"
 
@@ -69,7 +73,10 @@ class Box:
         from psyclone.psyir.symbols.datatypes import UnsupportedFortranType
         api, alg, idx = KERNELS[base]
         self.base, self.k = base, k
-        self.psy, invoke = get_invoke(alg, api=api, idx=0)
+        if api == "lfric-upper":
+            self.psy, invoke = upper_invoke(alg)
+        else:
+            self.psy, invoke = get_invoke(alg, api=api, idx=0)
         from psyclone.configuration import Config
         self.api = Config.get().api
         self.kern = invoke.schedule.coded_kernels()[idx]
@@ -123,6 +130,29 @@ class Box:
             return False
 
 
+def upper_invoke(alg):
+    """PSy object for an LFRic algorithm file whose `use <kernel>_mod` statement is written in upper case."""
+    from psyclone.configuration import Config
+    from psyclone.parse.algorithm import parse
+    from psyclone.psyGen import PSyFactory
+    base = os.path.join(common.REPO, "src", "psyclone", "tests", "test_files", "dynamo0p3")
+    text = open(os.path.join(base, alg)).read()
+    new = re.sub(r"(?im)^(\s*use\s+)(testkern_w3_mod)\b", lambda m: m.group(1) + m.group(2).upper(), text)
+    if new == text:
+        raise common.Infra("could not upper-case the kernel `use` statement of " + alg)
+    tmp = tempfile.mkdtemp(prefix="c29-alg-")
+    try:
+        path = os.path.join(tmp, "alg_upper.f90")
+        with open(path, "w") as fh:
+            fh.write(new)
+        Config.get().api = "dynamo0.3"
+        _, info = parse(path, api="dynamo0.3", kernel_paths=[base])
+        psy = PSyFactory("dynamo0.3", distributed_memory=False).create(info)
+    finally:
+        shutil.rmtree(tmp, ignore_errors=True)
+    return psy, psy.invokes.invoke_list[0]
+
+
 class Pool:
     """Re-usable transformed kernels, keyed by (base, kernel version, slot)."""
 
@@ -146,19 +176,19 @@ class Pool:
 
 def mod_stem(base, tag):
     """Module name (= file stem) for base id `base` carrying suffix `tag` (None = original name)."""
-    name = {1: "testkern", 2: "compute_cu", 3: "testkern_qr"}[base]
+    name = NAMES[base]
     return f"{name}_mod" if tag is None else f"{name}_{tag}_mod"
 
 
 def routine_name(base, tag):
-    name = {1: "testkern", 2: "compute_cu", 3: "testkern_qr"}[base]
+    name = NAMES[base].lower()
     return f"{name}_code" if tag is None else f"{name}_{tag}_code"
 
 
 def parse_stem(stem):
-    """'testkern_3_mod' -> (1, 3); 'testkern_mod' -> (1, None); unknown -> None."""
-    for b, name in ((3, "testkern_qr"), (1, "testkern"), (2, "compute_cu")):
-        m = re.fullmatch(re.escape(name) + r"(?:_(\d+))?_mod", stem)
+    """'testkern_3_mod' -> (1, 3); 'testkern_mod' -> (1, None); unknown -> None (letter case ignored)."""
+    for b in (3, 4, 1, 2):
+        m = re.fullmatch(re.escape(NAMES[b]) + r"(?:_(\d+))?_mod", stem, re.I)
         if m:
             return b, (int(m.group(1)) if m.group(1) is not None else None)
     return None
@@ -195,10 +225,10 @@ class _OsProxy:
         try:
             fd = os.open(path, flags, *a, **kw)
         except OSError as e:
-            self._ctl.log.append(("open-failed", r, os.path.basename(path), type(e).__name__))
+            self._ctl.log.append(("open-failed", r, os.path.basename(path).lower(), type(e).__name__))
             raise
-        self._fds[fd] = os.path.basename(path)
-        self._ctl.log.append(("created", r, os.path.basename(path)))
+        self._fds[fd] = os.path.basename(path).lower()
+        self._ctl.log.append(("created", r, os.path.basename(path).lower()))
         return fd
 
     def write(self, fd, data):
@@ -300,7 +330,7 @@ class Experiment:
 
             def logging_open(path, *a, **kw):
                 size = os.path.getsize(path) if os.path.exists(path) else -1
-                self.log.append(("read", self.current(), os.path.basename(path), size))
+                self.log.append(("read", self.current(), os.path.basename(path).lower(), size))
                 return open(path, *a, **kw)
             psyGen.open = logging_open
             hk.register(self._callback)
@@ -338,9 +368,10 @@ class Experiment:
                 "module_name": [b.kern.module_name for b in boxes],
                 "routine_name": [b.kern.name for b in boxes],
                 "modified": [bool(b.kern.modified) for b in boxes],
-                "files": {n: canon_text(t) for n, t in files.items()},
+                # file names are reported in lower case (module names are case-insensitive)
+                "files": {n.lower(): canon_text(t) for n, t in files.items()},
                 "pre_unchanged": all(files.get(n) == t for n, t in pre.items()),
-                "pre": sorted(pre),
+                "pre": sorted(n.lower() for n in pre),
                 "log": [list(e) for e in self.log],
                 "trace": [list(t) for t in self.trace],
                 "unfinished_after_schedule": unfinished,
